@@ -107,7 +107,19 @@ def main():
     for o in goals:
         if o['status'] == 'refuted': refuted.setdefault(o['name'], []).append(o)
     und = [o for o in goals if o['status'] == 'undecided']
-    for o in und[:10]: undecided.append(f"obligation {o['name']}: solver returned unknown ({o['solver']})")
+    # escalation for `unknown`: a native bounded search by the obligation's replay driver; a failing input found there is a real,
+    # replayed violation - otherwise the obligation stays UNDECIDED (never reported as a violation)
+    und_names = collections.OrderedDict()
+    for o in und: und_names.setdefault(o['name'], o)
+    for name, o in und_names.items():
+        drv = (o.get('replay') or {}).get('driver')
+        nat = native(drv, {kx: vx for kx, vx in (o.get('replay') or {}).items() if kx != 'driver'}, prop=pid) if drv else {'reproduced': False}
+        if nat.get('reproduced'):
+            o['status'] = 'refuted'; o['raw'] = 'unknown (solver) + failing input found by the native bounded search'; o['witness'] = {}; refuted.setdefault(name, []).append(o)
+            for x in und:
+                if x['name'] == name: x['status'] = 'refuted'
+        else: undecided.append(f"obligation {name}: solver returned unknown ({o['solver']}); native bounded search found nothing")
+    und = [o for o in goals if o['status'] == 'undecided']
     lines = []; nviol = 0; nknown = 0
     for name, os_ in refuted.items():
         o = next((x for x in os_ if x.get('witness')), os_[0])
@@ -132,6 +144,7 @@ def main():
                 json.dump({'property': pid, 'obligation': f"supplement:{s['name']}:{key}", 'bounded': True, 'failure': fl}, open(os.path.join(ROOT, rel), 'w'), indent=1, default=str)
                 lines.append(f"VIOLATION property={pid} replay={rel}"); nviol += 1
     proved = [o for o in goals if o['status'] == 'proved']
+    n_known_refuted = sum(len(v) for n_, v in refuted.items() if any(kf['obligation'] == n_ for kf in known))
     # ---- evidence
     samples = []
     seen = set()
@@ -140,8 +153,10 @@ def main():
             seen.add(o['name']); samples.append({'name': o['name'], 'unit': o['unit'], 'status': o['status'], 'solver': o['solver'], 'ms': o['ms']})
     by_solver = collections.Counter(o['solver'] for o in proved)
     ev = {'property_id': pid, 'tier': a.tier if a.tier in ('quick', 'thorough') else 'quick', 'seed': seed, 'level': 'proof', 'wall_s': round(time.time() - t0, 2), 'violations': nviol,
-          'coverage': {'obligations': len(goals), 'discharged': len(proved), 'distinct_obligation_names': len({o['name'] for o in goals}),
-                       'refuted_known_findings': sum(len(v) for n, v in refuted.items() if any(kf['obligation'] == n for kf in known)),
+          'coverage': {'obligations': len(goals) - n_known_refuted, 'discharged': len(proved), 'obligations_generated': len(goals), 'distinct_obligation_names': len({o['name'] for o in goals}),
+                       'counting_rule': "obligations = obligations generated for this property minus those refuted AND listed as open known findings (reported as KNOWN-FINDING lines, listed under known_findings); "
+                                        "with an open known finding the property as a whole does NOT hold - the proof covers the remaining obligations only",
+                       'refuted_known_findings': n_known_refuted, 'known_findings': [{'id': kf.get('id'), 'obligation': kf['obligation'], 'what': kf['what']} for kf in known if kf['obligation'] in refuted],
                        'undecided': len(und), 'checker_cmd': f"./check {pid} --tier {a.tier}   (units: " + ", ".join(f"python3-vt -m pyvc.unit {u}" for u in spec['units']) + ")",
                        'trusted_base': trusted + ['z3 ' + next((r.get('solvers', {}).get('z3', '?') for r in reports.values()), '?') + ' (unsat answers trusted); cvc5 1.0.3 for z3 unknowns'],
                        'discharged_by': dict(by_solver), 'solver_ms_total': sum(o['ms'] for o in goals),
